@@ -341,6 +341,12 @@ HARD = [
     ("#define {n} u8'a'", [("M", "", True)]), ("#define {n} '\\0' + '\\'' + '\\\\'", [("M", "", True)]),
     ("#define {n} u'\\u00e9'", [("M", "", True)]), ("#define {n} U'\\U0001F600'", [("M", "", True)]),
     ("#define {n} L'\\u20ac' + 1", [("M", "", True)]),
+    # multi-character literals (type int; value as the compiler computes it)
+    ("#define {n} 'ab'", [("M", "", True)]), ("#define {n} 'abcd'", [("M", "", True)]),
+    ("#define {n} '\\1\\2'", [("M", "", True)]), ("#define {n} 'ab' + 1", [("M", "", True)]),
+    ("#define {n} 'a\\n'", [("M", "", True)]), ("#define {n} '\\377\\377'", [("M", "", True)]),
+    ("enum EH_{i} {{ {n} = 'ab' }};", [("E", "", True)]), ("enum EH_{i} {{ {n} = 'abc', {n}n }};", [("E", "", True), ("E", "n", True)]),
+    ("extern char {n}['\\0\\3'];", [("A", "", True)]),
 ]
 
 
